@@ -806,7 +806,7 @@ def run(ctx):
             part = ex_all[i::nchunk]
             if part:
                 jobs.append(("exhaustive", part, small_ups, uos[:2] + [ROOT_ID]))
-        NR = 6000 if quick else 120000
+        NR = 6000 if quick else 100000
         per = 250 if quick else 1000
         for i in range(NR // per):
             jobs.append(("random", ("%s/C19/random/%d" % (ctx.seed, i), per), ups, uos))
